@@ -134,6 +134,10 @@ def _small_from_bin_cue(tier, seed):
                     idx = [{"number": 1, "n_minutes": m, "n_seconds": s_, "n_frames": f}]
                     if k % 2:
                         idx.append({"number": 2, "n_minutes": m, "n_seconds": s_, "n_frames": f + 1})
+                    elif n > 1 or extra in (1, 2352):
+                        # the usual pregap layout: INDEX 00 first, INDEX 01 a little later (the FIRST index counts)
+                        idx = [{"number": 0, "n_minutes": m, "n_seconds": s_, "n_frames": f},
+                               {"number": 1, "n_minutes": m, "n_seconds": s_, "n_frames": f + 1}]
                     tracks.append({"number": k + 1, "mode": modes[k % 3], "title": (None if k == 1 else f"T{k}"), "indices": idx})
                 inp = {"bin_file_stream": {"content": {"len": 2352 * F_last + extra}, "cur": 0},
                        "cue_file": {"bin_file_name": "x.bin", "tracks": tracks}}
